@@ -434,7 +434,7 @@ def run_check(prop, tier, seed, replay_file=None):
         keep = {}                      # id -> event, only for events with a failed clause
         distinct = set()
         t_replay = t_judge = 0.0
-        BATCH = 20000
+        BATCH = getattr(drv, "BATCH", 20000)       # cases per batch; drivers with many events per case choose less
         for b0 in range(0, len(cases), BATCH):
             tb = time.time()
             events = replay_pool(prop.lower(), cases[b0:b0 + BATCH], os.path.join(work, "replay"), hashseeds=hashseeds)
